@@ -235,7 +235,7 @@ func ruleApiBounds(c *Ctx) {
 		okc := false
 		for _, cl := range callsTo(fn, regPop) {
 			for _, cd := range g.CondsAtInstr(cl) {
-				if b, ok := cd.V.(*ssa.BinOp); ok && b.Op == token.EQL && !cd.Sense && isCallOf(b.X, getTop) {
+				if b, ok := cd.V.(*ssa.BinOp); ok && neHolds(b, cd) && isCallOf(b.X, getTop) {
 					okc = true
 				}
 			}
